@@ -647,6 +647,33 @@ fn gen_random(rng: &mut Rng) -> Project
 	p
 }
 
+/// projects built around names that are announced by the includer (`.global`) before the `.include`, imported by the
+/// child while still unvalued, used there, and defined by the includer afterwards (the use is resolved by the task that
+/// runs in the includer); with random variations that break the pattern
+fn gen_deferred(rng: &mut Rng) -> Project
+{
+	let depth = 1 + rng.below(3) as usize;
+	let mut files: Vec<Vec<St>> = vec![Vec::new(); depth + 1];
+	let n = (*rng.pick(&NAMES)).to_owned();
+	for k in 0..=depth
+	{
+		let f = &mut files[k];
+		if k == 0 || rng.chance(1, 3) {f.push(St::Global(n.clone()));} else {f.push(St::Import(n.clone()));}
+		if rng.chance(1, 2) {f.push(St::Use(n.clone()));}
+		if k < depth {f.push(St::Include(k + 1));}
+		if rng.chance(1, 3) {f.push(St::Use(n.clone()));}
+		let define = if k == 0 {rng.chance(9, 10)} else {rng.chance(1, 2)};
+		if define
+		{
+			let tag = tag_of(k, f.len());
+			f.push(if rng.chance(1, 4) {St::Label(n.clone())} else {St::Const(n.clone(), 100_000 + tag as i64)});
+		}
+		if rng.chance(1, 3) {f.push(St::Use(n.clone()));}
+		if rng.chance(1, 8) {f.push(St::Export(n.clone()));}
+	}
+	Project{files}
+}
+
 /// all two-file projects `pre ++ [include] ++ post` / `child` over one name
 fn enumerate_two_files(max_child: usize, max_pre: usize, max_post: usize) -> Vec<Project>
 {
@@ -877,6 +904,14 @@ non-trivial = at least one .du32 value or one diagnostic observed; distinct = di
 		debug_assert!(p.is_tree());
 		projects.push(p);
 	}
+	let nd = n / 5;
+	for _ in 0..nd
+	{
+		let p = gen_deferred(&mut cx.rng);
+		debug_assert!(p.is_tree());
+		projects.push(p);
+	}
+	cx.report.hit_n("deferred-import projects", nd as u64);
 	cx.report.hit_n("random projects", n as u64);
 	let max_depth = projects.iter().map(|p| {let par = p.parent_map(); (0..p.files.len()).map(|mut f| {let mut d = 1; while let Some(q) = par[f] {d += 1; f = q;} d}).max().unwrap_or(1)}).max().unwrap_or(0);
 	cx.report.notes.push(format!("deepest include nesting generated: {max_depth}"));
